@@ -2,13 +2,12 @@
     ([sigT] := [asig], [sverify] := [abs_verify]): a signature IS the pair (signer, message).
     - what "verifies" means there (accept_sound_abstract),
     - a changed hash makes an accepted transaction rejected,
-    - when the validator panics (only the Ethereum-key / short-KECCAK-signature class),
-    - a changed counted signature makes the transaction rejected outside that class, and the
-      concrete witness inside it. *)
+    - a changed hash / a changed counted signature makes the transaction REJECTED (an error
+      value: the validator never panics, Proofs/SigTotal.v). *)
 From Coq Require Import List Bool Arith NArith ZArith Lia Permutation.
 Import ListNotations.
 From Ont Require Import Lib.Bytes Model.Codec Gen.ProgramConsts Model.Program Gen.SigConsts Gen.SigGuards Model.Sig.
-From Ont Require Import Proofs.Codec Proofs.Program Proofs.Sig.
+From Ont Require Import Proofs.Codec Proofs.Program Proofs.Sig Proofs.SigTotal.
 Local Open Scope N_scope.
 
 (** * The abstract verification function *)
@@ -19,20 +18,6 @@ Proof.
   destruct s as [k' m' pc|pc|]; [|discriminate|destruct (pk_type k =? PK_ETHECDSA); discriminate].
   destruct (same_signer k k') eqn:S; cbn [andb]; [|discriminate].
   destruct (bytes_eqb h m') eqn:B; [|discriminate]. apply bytes_eqb_eq in B. subst. eauto.
-Qed.
-
-Lemma abs_verify_panic weak k h s :
-  abs_verify weak k h s = VPanic ->
-  (weak k = true /\ In (pk_curve k) (sig_panic_curves s)) \/ (s = SigEthShort /\ pk_type k = PK_ETHECDSA).
-Proof.
-  unfold abs_verify. destruct (weak k) eqn:W; cbn [andb].
-  - destruct (existsb _ _) eqn:X.
-    + intros _. left. split; [reflexivity|]. apply existsb_exists in X. destruct X as (c & Hc & E).
-      apply N.eqb_eq in E. subst. exact Hc.
-    + destruct s as [k' m' pc|pc|]; [destruct (same_signer k k' && bytes_eqb h m'); discriminate|discriminate|].
-      destruct (N.eqb_spec (pk_type k) PK_ETHECDSA); [auto|discriminate].
-  - destruct s as [k' m' pc|pc|]; [destruct (same_signer k k' && bytes_eqb h m'); discriminate|discriminate|].
-    destruct (N.eqb_spec (pk_type k) PK_ETHECDSA); [auto|discriminate].
 Qed.
 
 Section Abstract.
@@ -106,173 +91,27 @@ Proof.
   rewrite B1 in B2. injection B2 as <-. rewrite D1 in D2. injection D2 as _ Eh _. congruence.
 Qed.
 
-(** ** When the validator panics *)
-Definition ser_sane (k : pubkey) : Prop := pk_ser k <> [] /\ N.of_nat (length (pk_ser k)) < two32.
+(** ** "Rejected": an error value, for every transaction (the validator never panics, Proofs/SigTotal.v) *)
+Hypothesis Sane : deser_sane deser.
 
-(** Every key of every parsed signature set has a non-empty serialization shorter than 2^32
-    bytes (true of every key keypair.DeserializePublicKey returns: 33..133 bytes). *)
-Definition keys_sane (t : vtx) : Prop :=
-  forall r ss k, In r (v_sigs t) -> get_sig r = inl ss -> In k (ss_keys ss) -> ser_sane k.
-
-(** No signature set with an Ethereum-style key carries a short KECCAK-scheme signature. *)
-Definition no_eth_short (t : vtx) : Prop :=
-  forall r ss sb k, In r (v_sigs t) -> get_sig r = inl ss -> In sb (ss_sigdata ss) -> In k (ss_keys ss) ->
-    sdeser sb = Some SigEthShort -> pk_type k <> PK_ETHECDSA.
-
-(** No parsed key is an off-curve EC point. *)
-Definition no_weak_key (t : vtx) : Prop :=
-  forall r ss k, In r (v_sigs t) -> get_sig r = inl ss -> In k (ss_keys ss) -> weak k = false.
-
-Lemma push_all_sane ds : Forall (fun d => d <> [] /\ N.of_nat (length d) < two32) ds ->
-  exists e, push_all ds = Some e.
-Proof.
-  induction 1 as [|d ds (Hne & Hl) _ (e & IH)]; simpl; [eauto|].
-  destruct (push_bytes_some _ Hne Hl) as (hdr & -> & _). simpl. rewrite IH. simpl. eauto.
-Qed.
-
-Lemma address_single_sane k : ser_sane k -> exists a, address_from_pubkey H Keth k = AOk a.
-Proof.
-  intros (Hne & Hl). unfold address_from_pubkey. destruct (pk_type k =? PK_ETHECDSA); [eauto|].
-  unfold program_from_pubkey. destruct (push_bytes_some _ Hne Hl) as (hdr & -> & _). simpl. eauto.
-Qed.
-
-Lemma address_multi_sane ks m : Forall ser_sane ks -> address_from_multi_pubkeys H ks m <> APanic.
-Proof.
-  intro F. unfold address_from_multi_pubkeys. destruct (multi_params_ok m _); cbn [negb]; [|discriminate].
-  unfold program_from_multi_pubkey. destruct (multi_params_ok m _); cbn [negb]; [|discriminate].
-  unfold multi_script.
-  assert (B : forall v, v mod 65536 <= 65535) by (intro v; pose proof (N.mod_lt v 65536); lia).
-  destruct (push_num_some _ (B (Z.to_N m))) as (e1 & -> & _). cbn [obind].
-  assert (F' : Forall (fun d => d <> [] /\ N.of_nat (length d) < two32) (map pk_ser (sort_keys ks))).
-  { apply Forall_map. eapply Permutation_Forall; [apply Permutation_sym, sort_keys_perm|exact F]. }
-  destruct (push_all_sane _ F') as (e2 & ->). cbn [obind].
-  destruct (push_num_some _ (B (N.of_nat (length (sort_keys ks))))) as (e3 & -> & _). cbn [obind].
-  discriminate.
-Qed.
-
-Lemma find_slot_no_crash h s : forall keys mask,
-  (forall k, In k keys -> abs_verify k h s <> VPanic) -> find_slot h s keys mask <> SCrash.
-Proof.
-  induction keys as [|k ks IH]; intros mask A; [discriminate|].
-  destruct mask as [|b bs]; [discriminate|]. cbn [Sig.find_slot].
-  assert (IH' := IH bs (fun k0 Hk => A k0 (or_intror Hk))).
-  destruct b.
-  - destruct (find_slot h s ks bs); try discriminate. contradiction.
-  - pose proof (A k (or_introl eq_refl)) as Ak. destruct (abs_verify k h s); try discriminate; [|contradiction].
-    destruct (find_slot h s ks bs); try discriminate. contradiction.
-Qed.
-
-(** The per-set form of the two hypotheses. *)
-Definition set_calm (keys : list pubkey) (sigs : list bytes) : Prop :=
-  (forall k, In k keys -> weak k = false) /\
-  (forall sb k, In sb sigs -> In k keys -> sdeser sb = Some SigEthShort -> pk_type k <> PK_ETHECDSA).
-
-Lemma calm_no_panic keys sigs h sb s k :
-  set_calm keys sigs -> In sb sigs -> In k keys -> sdeser sb = Some s -> abs_verify k h s <> VPanic.
-Proof.
-  intros (W & A) Hs Hk D V. apply abs_verify_panic in V. destruct V as [(Wk & _)|(-> & T)].
-  - rewrite (W k Hk) in Wk. discriminate.
-  - exact (A sb k Hs Hk D T).
-Qed.
-
-Lemma multi_loop_no_crash h keys : forall m sigs mask,
-  (m <= length sigs)%nat -> set_calm keys sigs -> multi_loop h keys m sigs mask <> MCrash.
-Proof.
-  induction m as [|m IH]; intros sigs mask L A; [discriminate|].
-  cbn [Sig.multi_loop]. destruct sigs as [|sb rest]; [simpl in L; lia|].
-  destruct (sdeser sb) as [s|] eqn:D; [|discriminate].
-  destruct (find_slot h s keys mask) as [mask'| |] eqn:F; [|discriminate|].
-  - apply IH; [simpl in L; lia|]. destruct A as (W & A). split; [exact W|].
-    intros sb' k Hs Hk. apply A; [right; exact Hs|exact Hk].
-  - exfalso. revert F. apply find_slot_no_crash. intros k Hk.
-    eapply calm_no_panic; [exact A|left; reflexivity|exact Hk|exact D].
-Qed.
-
-Lemma check_sigset_no_crash h r :
-  (forall ss k, get_sig r = inl ss -> In k (ss_keys ss) -> ser_sane k) ->
-  (forall ss, get_sig r = inl ss -> set_calm (ss_keys ss) (ss_sigdata ss)) ->
-  check_sigset h r <> CCrash.
-Proof.
-  intros Sane Calm. unfold Sig.check_sigset. destruct (get_sig r) as [ss|e]; [|discriminate].
-  specialize (Sane ss). specialize (Calm ss eq_refl).
-  destruct (sig_param_bad _ _ _) eqn:P; [discriminate|].
-  apply sig_param_bad_spec in P. destruct P as (P1 & P2 & P3 & P4).
-  destruct (Z.eqb_spec (Z.of_nat (length (ss_keys ss))) 1) as [K1|K1].
-  - destruct (ss_keys ss) as [|k ks]; [simpl in K1; lia|].
-    destruct (ss_sigdata ss) as [|sb rest]; [simpl in P2; lia|].
-    unfold Sig.verify_single. destruct (sdeser sb) as [s|] eqn:D; [|discriminate].
-    destruct (abs_verify k h s) eqn:V; [|discriminate|].
-    + destruct (address_single_sane k) as (a & ->); [apply Sane; [reflexivity|left; reflexivity]|discriminate].
-    + exfalso. revert V. eapply calm_no_panic; [exact Calm|left; reflexivity|left; reflexivity|exact D].
-  - destruct (verify_multi h (ss_keys ss) (Z.of_N (ss_m ss)) (ss_sigdata ss)) eqn:VM; [|discriminate|].
-    + pose proof (address_multi_sane (ss_keys ss) (Z.of_N (ss_m ss))) as AM.
-      destruct (address_from_multi_pubkeys H (ss_keys ss) (Z.of_N (ss_m ss))); try discriminate.
-      exfalso. apply AM; [|reflexivity]. apply Forall_forall. intros k Hk. apply Sane; [reflexivity|exact Hk].
-    + exfalso. revert VM. unfold Sig.verify_multi. destruct (multi_not_enough _ _) eqn:NE; [discriminate|].
-      apply multi_not_enough_spec in NE. apply multi_loop_no_crash; [lia|exact Calm].
-Qed.
-
-Lemma check_sigs_no_crash h : forall rs acc,
-  (forall r ss k, In r rs -> get_sig r = inl ss -> In k (ss_keys ss) -> ser_sane k) ->
-  (forall r ss, In r rs -> get_sig r = inl ss -> set_calm (ss_keys ss) (ss_sigdata ss)) ->
-  check_sigs h rs acc <> LCrash.
-Proof.
-  induction rs as [|r rest IH]; intros acc Sane Calm; [discriminate|].
-  cbn [Sig.check_sigs].
-  pose proof (check_sigset_no_crash h r (fun ss k => Sane r ss k (or_introl eq_refl))
-                (fun ss => Calm r ss (or_introl eq_refl))) as NC.
-  destruct (check_sigset h r); [|discriminate|contradiction].
-  apply IH.
-  - intros r' ss k Hr. apply Sane. right. exact Hr.
-  - intros r' ss Hr. apply Calm. right. exact Hr.
-Qed.
-
-Theorem no_crash_proof t : keys_sane t -> no_eth_short t -> no_weak_key t -> cts t <> VCrash.
-Proof.
-  intros Sane NoShort NoWeak. unfold Sig.check_transaction_signatures.
-  destruct (v_eip t); [discriminate|]. destruct (too_many_sigs _); [discriminate|].
-  assert (Calm : forall r ss, In r (v_sigs t) -> get_sig r = inl ss -> set_calm (ss_keys ss) (ss_sigdata ss)).
-  { intros r ss Hr G. split.
-    - intros k Hk. exact (NoWeak r ss k Hr G Hk).
-    - intros sb k Hs Hk. exact (NoShort r ss sb k Hr G Hs Hk). }
-  pose proof (check_sigs_no_crash (v_hash t) (v_sigs t) [] Sane Calm) as NC.
-  destruct (check_sigs (v_hash t) (v_sigs t) []) as [ad| |]; [|discriminate|contradiction].
-  destruct (mem_addr (v_payer t) ad); discriminate.
-Qed.
-
-(** An Ontology-format run that neither accepts nor panics rejects. *)
-Lemma not_accept_not_crash_reject t :
-  v_eip t = false -> (forall addrs, cts t <> VAccept addrs) -> cts t <> VCrash -> exists e, cts t = VReject e.
-Proof.
-  intros Eip NA NC. destruct (cts t) as [ad| |e|] eqn:E; [exfalso; exact (NA ad eq_refl)| |eauto|contradiction].
-  exfalso. revert E. unfold Sig.check_transaction_signatures. rewrite Eip.
-  destruct (too_many_sigs _); [discriminate|].
-  destruct (check_sigs _ _ _) as [ad| |]; try discriminate. destruct (mem_addr _ _); discriminate.
-Qed.
-
-(** ** A changed counted signature, outside the crash classes *)
-Theorem signature_mutation_rejected_partial_proof t r ss i sb :
-  v_eip t = false -> keys_sane t -> no_eth_short t -> no_weak_key t ->
-  In r (v_sigs t) -> get_sig r = inl ss ->
+Theorem signature_mutation_rejected_proof t r ss i sb :
+  v_eip t = false -> In r (v_sigs t) -> get_sig r = inl ss ->
   (i < N.to_nat (ss_m ss))%nat -> nth_error (ss_sigdata ss) i = Some sb ->
   (forall k, In k (ss_keys ss) -> ~ signed_by k (v_hash t) sb) ->
   exists e, cts t = VReject e.
 Proof.
-  intros Eip Sane NoShort NoWeak Hr G Hi Hsb Bad.
-  apply not_accept_not_crash_reject; [exact Eip| |apply no_crash_proof; assumption].
-  eapply bad_signature_not_accepted_proof; try eassumption.
+  intros Eip Hr G Hi Hsb Bad.
+  eapply (bad_signature_rejected_proof deser asig sdeser abs_verify H Keth Sane); try eassumption.
   intros k Hk V. apply (Bad k Hk). apply verifies_signed_by. exact V.
 Qed.
 
-(** ** A changed hash, outside the crash classes *)
-Theorem hash_mutation_rejected_partial_proof t addrs h' p' :
+Theorem hash_mutation_rejected_proof t addrs h' p' :
   cts t = VAccept addrs -> h' <> v_hash t ->
-  keys_sane t -> no_eth_short t -> no_weak_key t ->
   exists e, cts (mkVtx false h' p' (v_sigs t)) = VReject e.
 Proof.
-  intros E N Sane NoShort NoWeak.
-  apply not_accept_not_crash_reject; [reflexivity|eapply hash_mutation_not_accepted_proof; eassumption|].
-  apply no_crash_proof; assumption.
+  intros E N.
+  apply (not_accept_reject deser asig sdeser abs_verify H Keth Sane); [reflexivity|].
+  eapply hash_mutation_not_accepted_proof; eassumption.
 Qed.
 
 End Abstract.
